@@ -1,1 +1,2 @@
 pub mod c15;
+pub mod c07;
